@@ -784,13 +784,16 @@ def lexical_cases(run: Run, impl: Impl, cases: list) -> None:
                     st.count('lex:qname-ctor-bound:' + got_q)
                     if got_q != mm:
                         run.disagree(Disagreement(case, impl=got_q, model=mm, what='qname-ctor-model', site='qname.py AbstractQName.__init__'))
-                    elif got_q != sp:
+                    if got_q != sp:
                         run.disagree(Disagreement(case, impl=got_q, model=mm, spec=sp, what='qname-ctor-vs-xml-production',
                                                   site='qname.py AbstractQName.__init__', tags=f10n(got_q)))
                 if qname_ns_error:
                     pass       # undeclared prefix (FONS0004): only the bound constructor above is compared
                 elif got_n != mm:        # the tie first: the tables of the model are generated from the live patterns
                     run.disagree(Disagreement(case, impl=got_n, model=mm, what='name-model', site=f'datatypes {t}.pattern'))
+                    if got_n != sp:
+                        run.disagree(Disagreement(case, impl=got_n, model=mm, spec=sp, what='name-vs-xml-production',
+                                                  site=f'datatypes {t}.pattern', tags=tags_n))
                 elif got_n != sp:
                     run.disagree(Disagreement(case, impl=got_n, model=mm, spec=sp, what='name-vs-xml-production',
                                               site=f'datatypes {t}.pattern', tags=tags_n))
@@ -806,7 +809,7 @@ def lexical_cases(run: Run, impl: Impl, cases: list) -> None:
                 st.count('lex:string-model:' + t)
                 if got_t != mm:
                     run.disagree(Disagreement(case, impl=got_t, model=mm, what='string-type-model', site=f'datatypes {t}'))
-                elif got_t != sp:
+                if got_t != sp:
                     run.disagree(Disagreement(case, impl=got_t, model=mm, spec=sp, what='string-type-vs-whitespace-facet',
                                               site=f'datatypes {t}'))
             if t in DATE_TYPES:
@@ -822,7 +825,6 @@ def lexical_cases(run: Run, impl: Impl, cases: list) -> None:
                     if got_d != {'ERR:O': 'ERR:A'}.get(mm, mm):
                         run.disagree(Disagreement(dict(case, xsd=ver), impl=got_d, model=mm, what='date-model',
                                                   site=f'datetime.py {t}.fromstring (XSD {ver})'))
-                        continue
                     # against the lexical productions: acceptance, and the fields of the literal
                     if sp == 'ERR:V':
                         want = 'error'
